@@ -56,10 +56,12 @@ theorem oMax_eq (a b : Option CTree) (E : Nat) (h : ∀ lf ∈ oleaves a ++ olea
 theorem newLeaves_perm {bs els : List (BitStr × Dig)} (h : bs.Perm els) (ep : Nat) :
     (newLeaves bs ep).Perm (newLeaves els ep) := h.map _
 
-theorem batchInsert_root (c : Cfg) (hc : c.emptyLabel.len = 0) (m : InsertMode)
+/-- the root level, for a tree whose leaves are not newer than the epoch being inserted (they may be OF that
+epoch: a second sub-batch within one epoch, C14) -/
+theorem batchInsert_root_le (c : Cfg) (hc : c.emptyLabel.len = 0) (m : InsertMode)
     (s : NodeStore) (a : Azks) (t : CRoot)
     (hrep : RepRoot c m s t) (hwf : t.WF)
-    (hep : ∀ lf ∈ t.leaves, 1 ≤ lf.ep ∧ lf.ep ≤ a.latestEpoch)
+    (hep : ∀ lf ∈ t.leaves, 1 ≤ lf.ep ∧ lf.ep ≤ a.latestEpoch + 1)
     (els : List (BitStr × Dig))
     (hpf : (t.leaves ++ newLeaves els (a.latestEpoch + 1)).Pairwise Incomp)
     (hlen : ∀ lf ∈ t.leaves ++ newLeaves els (a.latestEpoch + 1), 1 ≤ lf.lbl.length ∧ lf.lbl.length ≤ 256) :
@@ -185,5 +187,17 @@ theorem batchInsert_root (c : Cfg) (hc : c.emptyLabel.len = 0) (m : InsertMode)
   · intro x hx
     obtain ⟨_, k2, k3⟩ := hst'.kids true x hx
     exact ⟨by simpa using k3, k2⟩
+
+theorem batchInsert_root (c : Cfg) (hc : c.emptyLabel.len = 0) (m : InsertMode)
+    (s : NodeStore) (a : Azks) (t : CRoot)
+    (hrep : RepRoot c m s t) (hwf : t.WF)
+    (hep : ∀ lf ∈ t.leaves, 1 ≤ lf.ep ∧ lf.ep ≤ a.latestEpoch)
+    (els : List (BitStr × Dig))
+    (hpf : (t.leaves ++ newLeaves els (a.latestEpoch + 1)).Pairwise Incomp)
+    (hlen : ∀ lf ∈ t.leaves ++ newLeaves els (a.latestEpoch + 1), 1 ≤ lf.lbl.length ∧ lf.lbl.length ≤ 256) :
+    ∃ s' n t', s.batchInsert c m a (els.map enc) = .ok (s', ⟨a.latestEpoch + 1, n⟩) ∧
+      RepRoot c m s' t' ∧ t'.WF ∧ t'.leaves.Perm (t.leaves ++ newLeaves els (a.latestEpoch + 1)) :=
+  batchInsert_root_le c hc m s a t hrep hwf
+    (fun lf h => ⟨(hep lf h).1, Nat.le_succ_of_le (hep lf h).2⟩) els hpf hlen
 
 end Akd.Ins
